@@ -27,3 +27,4 @@ ITEMS = [
                 (r'Rc<dyn Builtin>', 'Rc<BuiltinBox>', 'builtin object is opaque'),
                 (r'Rc<RefCell<HashMap<Vec<ObjKey>, Obj>>>', 'Rc<MemoCell>', 'memo table is opaque')]),
 ]
+
